@@ -181,6 +181,32 @@ package ast
 //@   ensures forall v Variable :: old(m[v]) ==> m[v]
 //@   ensures forall v Variable :: occurs(term, v) ==> m[v]
 
+// Collecting the variables of a clause covers its head and every premise (verified over AddVars' assumed contract).
+//@ func AddVarsFromClause(clause, m)
+//@   requires m != nil
+//@   modifies m
+//@   ensures forall v Variable :: old(m[v]) ==> m[v]
+//@   ensures forall v Variable :: occurs(clause.Head, v) ==> m[v]
+//@   ensures forall v Variable, j int :: 0 <= j && j < len(clause.Premises) && occurs(clause.Premises[j], v) ==> m[v]
+//@   loop 1 invariant forall v Variable :: old(m[v]) ==> m[v]
+//@   loop 1 invariant forall v Variable :: occurs(clause.Head, v) ==> m[v]
+//@   loop 1 invariant forall v Variable, j int :: 0 <= j && j < rangeindex + 1 && occurs(clause.Premises[j], v) ==> m[v]
+
+// Replacing the wildcards of a term draws fresh names from outside the given set and records them there; nothing
+// leaves the set (ASSUMED: recursive over the term structure).
+//@ func ReplaceWildcards(used, term)
+//@   trusted
+//@   requires used != nil
+//@   modifies used
+//@   ensures forall v Variable :: old(used[v]) ==> used[v]
+
+// C04: the names that replace the wildcards of a clause's premises are fresh for the WHOLE clause: every variable of
+// the head is in the set of used names handed to each replacement (a name that collides with a head variable would
+// make an unbound head variable look bound to the binding check, which runs on the replaced copy).
+//@ func (c Clause) ReplaceWildcards()
+//@   guard call ReplaceWildcards: arg0 != nil && (forall v Variable :: occurs(c.Head, v) ==> arg0[v])
+//@   loop 1 invariant len(newPremises) == len(c.Premises) && vars != nil && (forall v Variable :: occurs(c.Head, v) ==> vars[v])
+
 // Lookup in a substitution list is a function of the list and the variable (body: linear search, not verified here).
 //@ func (c ConstSubstList) Get(v)
 //@   pure
@@ -225,10 +251,14 @@ package ast
 //@   trusted
 //@   modifies nothing
 
+// The machine-readable form of a constant (quoted, escaped, parseable) never goes through the human-readable one:
+// a nested element printed by DisplayString loses its quotes and escapes, and two different lists print alike.
+// (The meaning of String is ASSUMED to be a function of the constant; this one fact is decided on its code.)
 //@ func (c Constant) String()
 //@   pure
 //@   trusted
 //@   modifies nothing
+//@   guard nocall DisplayString: false
 
 // ---- C09: Unescape emits one byte for an ASCII character or a byte escape and the UTF-8 encoding otherwise -----------
 // Per iteration: the output grows by exactly one byte when the character is below 0x80 or comes from a byte escape, and by
